@@ -1868,3 +1868,314 @@ func ruleC34cd(c *Ctx, r *Report) {
 		r.viol("ER-C34d", gn, "no-lock-juggling", c.Pos(get.Pos()), "the fetch takes or releases s.lock itself: the caller's critical section is split")
 	}
 }
+
+func init() {
+	register("C05", "Clause decided (the rejection gate only): a statement that would assign a new value to the sharding column is rejected. MP-C05: in plan.handleUpdateAssignmentList and plan.handleInsertOnDuplicate the comparison of an assigned column with the rule's GetShardingColumn() lies inside the loop over the assignments and its true edge reaches only error returns; MP-C05side: those two functions dominate SQL generation in HandleUpdatePlan / HandleInsertStmt with their error edge returning. The first sentence of the property (exactly the matching rows change, affected-row count) is row-level equivalence and is not decided.",
+		ruleC05, ruleC05side)
+}
+
+func ruleC05side(c *Ctx, r *Report) {
+	side := func(fnName, guard, gen string) {
+		f := c.Func("proxy/plan", fnName)
+		g := c.Func("proxy/plan", guard)
+		s := c.Func("proxy/plan", gen)
+		if f == nil || g == nil || s == nil {
+			r.undecided("MP-C05side", "proxy/plan."+fnName, guard+"->"+gen, "-", "anchor not found")
+			return
+		}
+		for _, gi := range callsIn(f, func(cc *ssa.CallCommon) bool { return callsFunc(cc, s) }) {
+			dom := false
+			for _, ci := range callsIn(f, func(cc *ssa.CallCommon) bool { return callsFunc(cc, g) }) {
+				if dominatedByNilErr(gi, ci.(*ssa.Call)) {
+					dom = true
+				}
+			}
+			if dom {
+				r.ok("MP-C05side", c.FuncName(f), guard+"->"+gen, c.Pos(gi.Pos()), "SQL generation is dominated by the successful shard-column check")
+			} else {
+				r.viol("MP-C05side", c.FuncName(f), guard+"->"+gen, c.Pos(gi.Pos()), "SQL can be generated without the 'cannot update shard column' rejection having passed")
+			}
+		}
+	}
+	r.floor("MP-C05side", 2)
+	side("HandleInsertStmt", "handleInsertOnDuplicate", "generateMultiShardingSQLs")
+	side("HandleUpdatePlan", "handleUpdateAssignmentList", "generateShardingSQLs")
+}
+
+func ruleC05(c *Ctx, r *Report) {
+	const rule = "MP-C05"
+	r.floor(rule, 2)
+	shardCol := c.IfaceMethod("proxy/router", "Rule", "GetShardingColumn")
+	if shardCol == nil {
+		r.undecided(rule, "proxy/router.Rule", "anchor", "-", "GetShardingColumn not found")
+		return
+	}
+	for _, fname := range []string{"handleUpdateAssignmentList", "handleInsertOnDuplicate"} {
+		fn := c.Func("proxy/plan", fname)
+		if fn == nil {
+			r.undecided(rule, "proxy/plan."+fname, "anchor", "-", "not found")
+			continue
+		}
+		name := c.FuncName(fn)
+		fromShardCol := func(v ssa.Value) bool {
+			for _, l := range phiLeaves(v) {
+				if call, ok := l.(*ssa.Call); ok && callsIfaceMethod(&call.Call, shardCol) {
+					return true
+				}
+			}
+			return false
+		}
+		n := 0
+		allInstrs(fn, func(in ssa.Instruction) {
+			b, ok := in.(*ssa.BinOp)
+			if !ok || b.Op != token.EQL || !isStringType(b.X.Type()) {
+				return
+			}
+			if !fromShardCol(b.X) && !fromShardCol(b.Y) {
+				return
+			}
+			n++
+			cons := fmt.Sprintf("sharding-column-match#%d", n)
+			// inside a loop?
+			inLoop := false
+			for _, blk := range fn.Blocks {
+				for _, h := range blk.Succs {
+					if h.Dominates(blk) && h.Dominates(b.Block()) && blockReachable(b.Block(), h) {
+						inLoop = true
+					}
+				}
+			}
+			var bad []Exit
+			back := false
+			ne := 0
+			for _, e := range condEdges(b) {
+				if !e.Val {
+					continue
+				}
+				ne++
+				first := b.Block().Instrs[0]
+				bad = append(bad, searchExits(fn, nil, e.If.Block().Succs[e.Succ], SearchOpts{
+					Stop: func(x ssa.Instruction) bool {
+						if x == first {
+							back = true
+							return true
+						}
+						return false
+					},
+					ExitOK: func(x ssa.Instruction) bool {
+						ret, ok := x.(*ssa.Return)
+						if !ok {
+							return true
+						}
+						isNil, known := returnsNilError(ret)
+						return known && !isNil
+					},
+				})...)
+			}
+			switch {
+			case !inLoop:
+				r.viol(rule, name, cons, c.Pos(b.Pos()), "the sharding-column comparison is not inside the loop over the assignments: only some assignments are examined")
+			case ne == 0:
+				r.viol(rule, name, cons, c.Pos(b.Pos()), "the result of the sharding-column comparison is not branched on")
+			case len(bad) > 0 || back:
+				r.viol(rule, name, cons, c.Pos(b.Pos()), "an assignment to the sharding column can pass without the statement being rejected: the row stays in its table with a key that now routes elsewhere")
+			default:
+				r.ok(rule, name, cons, c.Pos(b.Pos()), "an assignment whose column is the rule's sharding column reaches only error returns")
+			}
+		})
+		if n == 0 {
+			r.viol(rule, name, "sharding-column-match", c.Pos(fn.Pos()), "the function never compares an assigned column with the rule's sharding column")
+		}
+	}
+}
+
+func init() {
+	register("C06", "Clause decided (gates only; the agreement of the token pre-check with the SQL grammar over all texts is a language question and is not decided): MP-C06a: in plan.CheckUnshardBase/Insert/Update a table whose rule is not the router's default rule makes the function answer 'not unsharded' on every path (the true edge of GetRule(..) != GetDefaultRule() reaches only returns with false); MP-C06b: in SessionExecutor.preBuildUnshardPlan every return that claims an unshard plan is dominated by the pre-check's positive answer (isUnshardPlan from CheckUnshard*) or by the router having no rules at all, and getPlan returns the fast plan only on that flag.",
+		ruleC06)
+}
+
+func ruleC06(c *Ctx, r *Report) {
+	r.floor("MP-C06a", 3)
+	r.floor("MP-C06b", 2)
+	getRule := c.Method("proxy/router", "Router", "GetRule")
+	getDef := c.Method("proxy/router", "Router", "GetDefaultRule")
+	if getRule == nil || getDef == nil {
+		r.undecided("MP-C06a", "proxy/router.Router", "anchor", "-", "GetRule/GetDefaultRule not found")
+		return
+	}
+	var checkers []*ssa.Function
+	for _, n := range []string{"CheckUnshardBase", "CheckUnshardInsert", "CheckUnshardUpdate"} {
+		fn := c.Func("proxy/plan", n)
+		if fn == nil {
+			r.undecided("MP-C06a", "proxy/plan."+n, "anchor", "-", "not found")
+			continue
+		}
+		checkers = append(checkers, fn)
+		name := c.FuncName(fn)
+		isCallTo := func(v ssa.Value, f *ssa.Function) bool {
+			call, ok := stripValue(v).(*ssa.Call)
+			return ok && callsFunc(&call.Call, f)
+		}
+		k := 0
+		allInstrs(fn, func(in ssa.Instruction) {
+			b, ok := in.(*ssa.BinOp)
+			if !ok || (b.Op != token.NEQ && b.Op != token.EQL) {
+				return
+			}
+			if !(isCallTo(b.X, getRule) && isCallTo(b.Y, getDef)) && !(isCallTo(b.Y, getRule) && isCallTo(b.X, getDef)) {
+				return
+			}
+			k++
+			cons := fmt.Sprintf("sharded-table-found#%d", k)
+			var bad []Exit
+			for _, e := range condEdges(b) {
+				sharded := e.Val
+				if b.Op == token.EQL {
+					sharded = !e.Val
+				}
+				if !sharded {
+					continue
+				}
+				bad = append(bad, searchExits(fn, nil, e.If.Block().Succs[e.Succ], SearchOpts{ExitOK: func(x ssa.Instruction) bool {
+					ret, ok := x.(*ssa.Return)
+					if !ok || len(ret.Results) < 2 {
+						return true
+					}
+					vals, zero := retValues(ret, 1)
+					if zero {
+						return len(vals) == 0
+					}
+					for _, v := range vals {
+						if t, isC := constBool(v); !isC || t {
+							return false
+						}
+					}
+					return true
+				}})...)
+			}
+			if len(bad) == 0 {
+				r.ok("MP-C06a", name, cons, c.Pos(b.Pos()), "a table with a sharding rule makes the pre-check answer 'not unsharded' on every path")
+			} else {
+				r.viol("MP-C06a", name, cons, c.Pos(b.Pos()), "the pre-check can answer 'unsharded' although it found a table with a sharding rule: the statement is forwarded unrewritten to the default slice", c.pathStrings(bad[0])...)
+			}
+		})
+		if k == 0 {
+			r.viol("MP-C06a", name, "sharded-table-found", c.Pos(fn.Pos()), "the pre-check never compares a table's rule with the default rule")
+		}
+	}
+	pre := c.seMethod("preBuildUnshardPlan")
+	getPlan := c.seMethod("getPlan")
+	if pre == nil || getPlan == nil {
+		r.undecided("MP-C06b", "proxy/server", "anchor", "-", "preBuildUnshardPlan/getPlan not found")
+		return
+	}
+	pn := c.FuncName(pre)
+	// edges: flag value (phi of Extract#1 of checker calls) true; or len(GetAllRules()) == 0
+	var okEdges []CondEdge
+	for _, b := range pre.Blocks {
+		iff, ok := b.Instrs[len(b.Instrs)-1].(*ssa.If)
+		if !ok {
+			continue
+		}
+		cond := iff.Cond
+		fromCheckers := true
+		leaves := phiLeaves(cond)
+		if len(leaves) == 0 {
+			fromCheckers = false
+		}
+		for _, l := range leaves {
+			if t, isC := constBool(l); isC && t {
+				continue // initial `isUnshardPlan := true` is overwritten on every path that reaches the use (checked below by the switch default returning)
+			}
+			ex, isEx := l.(*ssa.Extract)
+			if !isEx || ex.Index != 1 {
+				fromCheckers = false
+				continue
+			}
+			call, isCall := ex.Tuple.(*ssa.Call)
+			okc := false
+			if isCall {
+				for _, ck := range checkers {
+					if callsFunc(&call.Call, ck) {
+						okc = true
+					}
+				}
+			}
+			if !okc {
+				fromCheckers = false
+			}
+		}
+		if fromCheckers {
+			okEdges = append(okEdges, CondEdge{If: iff, Succ: 0, Val: true})
+		}
+		if bo, isB := cond.(*ssa.BinOp); isB && bo.Op == token.EQL && isIntConst(bo.Y, 0) {
+			if call, isCall := bo.X.(*ssa.Call); isCall {
+				if bi, isBi := call.Call.Value.(*ssa.Builtin); isBi && bi.Name() == "len" {
+					if inner, isInner := call.Call.Args[0].(*ssa.Call); isInner && inner.Call.StaticCallee() != nil && inner.Call.StaticCallee().Name() == "GetAllRules" {
+						okEdges = append(okEdges, CondEdge{If: iff, Succ: 0, Val: true})
+					}
+				}
+			}
+		}
+	}
+	n := 0
+	for _, ret := range returnsOf(pre) {
+		if len(ret.Results) < 2 {
+			continue
+		}
+		vals, _ := retValues(ret, 1)
+		maybe := false
+		for _, v := range vals {
+			if t, isC := constBool(v); !isC || t {
+				maybe = true
+			}
+		}
+		if !maybe {
+			continue
+		}
+		n++
+		cons := fmt.Sprintf("claims-unshard#%d", n)
+		if edgesDominate(pre, okEdges, ret.Block()) {
+			r.ok("MP-C06b", pn, cons, c.Pos(exitPos(ret)), "dominated by the pre-check's positive answer or by the router having no rules")
+		} else {
+			r.viol("MP-C06b", pn, cons, c.Pos(exitPos(ret)), "the fast unsharded plan can be chosen on a path where the token pre-check did not say 'all tables unsharded'")
+		}
+	}
+	if n == 0 {
+		r.undecided("MP-C06b", pn, "claims-unshard", c.Pos(pre.Pos()), "no return claims an unshard plan")
+	}
+	// getPlan: the early return of the fast plan is dominated by the flag
+	gn := c.FuncName(getPlan)
+	for _, ci := range callsIn(getPlan, func(cc *ssa.CallCommon) bool { return callsFunc(cc, pre) }) {
+		flag := extractOf(ci.(ssa.Value), 1)
+		planV := extractOf(ci.(ssa.Value), 0)
+		if flag == nil || planV == nil {
+			r.viol("MP-C06b", gn, "fast-plan-return", c.Pos(ci.Pos()), "the pre-check's answer is not used")
+			continue
+		}
+		a := aliasSet(planV)
+		okAll := true
+		cnt := 0
+		for _, ret := range returnsOf(getPlan) {
+			vals, _ := retValues(ret, 0)
+			uses := false
+			for _, v := range vals {
+				if a.has(v) {
+					uses = true
+				}
+			}
+			if !uses {
+				continue
+			}
+			cnt++
+			if !dominatedByCond(ret, flag, true) {
+				okAll = false
+			}
+		}
+		if okAll && cnt > 0 {
+			r.ok("MP-C06b", gn, "fast-plan-return", c.Pos(ci.Pos()), "the fast plan is returned only when preBuildUnshardPlan said so")
+		} else {
+			r.viol("MP-C06b", gn, "fast-plan-return", c.Pos(ci.Pos()), "getPlan can return the fast unsharded plan without the pre-check's positive answer")
+		}
+	}
+}
